@@ -403,6 +403,25 @@ class Evaluator:
         if opn in ("Eq", "NotEq") and (l == NONE) != (r == NONE) and (l[0] in ("num", "const") or r[0] in ("num", "const")):
             yield st, opn == "NotEq"
             return
+        # x in (a, b)  ==  x == a or x == b  (same canonical atoms whichever way it is written)
+        if opn in ("In", "NotIn") and tree_of(l) is not None and tree_of(l)[0] != "c":
+            elems = None
+            if r[0] == "obj" and len(r) > 2 and r[1] == "seq":
+                elems = list(r[2])
+            elif r[0] == "const" and isinstance(r[1], (tuple, list, set, frozenset)):
+                elems = [const(x) for x in (sorted(r[1], key=repr) if isinstance(r[1], (set, frozenset)) else r[1])]
+            if elems is not None and all(tree_of(x) is not None for x in elems):
+                def rec(i, s):
+                    if i == len(elems):
+                        yield s, opn == "NotIn"
+                        return
+                    for s2, b in self.decide(ast.Eq(), l, elems[i], s, text):
+                        if b:
+                            yield s2, opn == "In"
+                        else:
+                            yield from rec(i + 1, s2)
+                yield from rec(0, st)
+                return
         # canonical atom: (op, tree, const) with the symbolic side on the left
         lt, rt = tree_of(l), tree_of(r)
         if lt is not None and rt is not None:
